@@ -610,6 +610,9 @@ func runC08(w *World, r *Report) {
 					if op2, m2, id2, ok := lockOp(ci); ok && op2 == "unlock" && m2 == mode && id2 == id {
 						return true
 					}
+					if d, isDefer := x.(*ssa.Defer); isDefer && deferredClosureReleases(d, id) {
+						return true
+					}
 				}
 				return false
 			})
@@ -830,4 +833,65 @@ func nilContradictions(w *World, r *Report, fn *ssa.Function) {
 
 func blockLabel(b *ssa.BasicBlock) string {
 	return fmt.Sprintf("%s", b.Comment)
+}
+
+// deferredClosureReleases: `defer func() { … }()` whose body unlocks mutex id, either directly or by
+// calling a captured func variable that only ever holds bound Unlock/RUnlock methods of that mutex
+// (`unlock := mu.RUnlock; defer func() { unlock() }(); …; unlock = mu.Unlock`).
+func deferredClosureReleases(d *ssa.Defer, id string) bool {
+	cl := closureOf(d.Call.Value)
+	if cl == nil {
+		return false
+	}
+	mc, _ := d.Call.Value.(*ssa.MakeClosure)
+	found := false
+	instrsOf(cl, func(in ssa.Instruction) {
+		c, ok := in.(*ssa.Call)
+		if !ok {
+			return
+		}
+		if op, _, id2, ok := lockOp(c); ok && op == "unlock" && id2 == id {
+			found = true
+			return
+		}
+		// dynamic call of a captured func variable
+		ld, ok := c.Call.Value.(*ssa.UnOp)
+		if !ok || mc == nil {
+			return
+		}
+		fv, ok := ld.X.(*ssa.FreeVar)
+		if !ok {
+			return
+		}
+		for i, v := range cl.FreeVars {
+			if v != fv || i >= len(mc.Bindings) {
+				continue
+			}
+			al, ok := mc.Bindings[i].(*ssa.Alloc)
+			if !ok {
+				return
+			}
+			all, n := true, 0
+			for _, ref := range *al.Referrers() {
+				st, ok := ref.(*ssa.Store)
+				if !ok || st.Addr != ssa.Value(al) {
+					continue
+				}
+				n++
+				bm, ok := st.Val.(*ssa.MakeClosure)
+				if !ok || len(bm.Bindings) != 1 {
+					all = false
+					continue
+				}
+				name := bm.Fn.Name()
+				if !(strings.HasPrefix(name, "Unlock$bound") || strings.HasPrefix(name, "RUnlock$bound")) || lockIdent(bm.Bindings[0]) != id {
+					all = false
+				}
+			}
+			if all && n > 0 {
+				found = true
+			}
+		}
+	})
+	return found
 }
